@@ -14,6 +14,7 @@ Grammar of a case (one line, whitespace separated tokens; -1 = none):
   CONN   := KEEP <add> (m <model> <input> | s <sink>)      KEEP := all | even | lt <c>
   QCONN  := KEEP <add> <model> <replier> <radd>
   CMD    := se DL <m> <input> <v> <slot|-1> <period|-1> | ss DL <src> <v> <slot|-1> <period|-1> | cn <slot>
+          | ca <slot> (into_auto + drop) | ck <a> <b> (slot b := clone of the key of slot a; the model resolves the alias)
           | st | su DL | pe <m> <input> <v> | pq <m> <rep> <v> | ps <src> <v> | rs <sink> | so <sink> <0|1>
 """
 import random
@@ -51,6 +52,8 @@ def r_op(o):
         return "%s %d %s" % (o[0], o[1], r_expr(o[2]))
     if o[0] == "sch":
         return "sch %s %d %s %s %s" % (r_dl(o[1]), o[2], r_expr(o[3]), opt(o[4]), opt(o[5]))
+    if o[0] == "cau":
+        return "cau %d" % o[1]
     if o[0] in ("nst", "nsp"):
         return "%s %d %d" % (o[0], o[1], o[2])
     return "%s %d" % (o[0], o[1])
